@@ -20,7 +20,7 @@ RULE = ('case = one history (sequence of encrypt/protect operations in one proce
         'distinct = distinct history descriptors; the evidence also counts distinct secret values observed')
 ASSUMPTIONS = ['unpredictability of os.urandom / OpenSSL RNG is not decidable by monitoring: freshness, size and provenance are observed',
                'ECDH ephemeral keys and RSA padding come from OpenSSL and are visible only through outputs']
-MIN_COUNTERS = {'quick': {'operations': 180, 'session_keys_checked': 120, 'prefixes_checked': 120, 'salts_checked': 40, 'ivs_checked': 15, 'ephemerals_checked': 60, 'urandom_calls_seen': 300, 'reprotect_operations': 5, 'chained_recipient_operations': 10, 'encryptions_with_long_lived_key_object': 60, 'encryptions_of_a_long_lived_message_object': 80},
+MIN_COUNTERS = {'quick': {'operations': 180, 'session_keys_checked': 120, 'prefixes_checked': 120, 'salts_checked': 40, 'ivs_checked': 15, 'ephemerals_checked': 60, 'urandom_calls_seen': 300, 'reprotect_operations': 5, 'chained_recipient_operations': 10, 'encryptions_with_long_lived_key_object': 60, 'encryptions_of_a_long_lived_message_object': 80, 'encryptions_with_a_caller_supplied_session_key': 100},
                 'thorough': {'operations': 3000}}
 BUDGET = {'quick': (600, 1500), 'thorough': (1800, 3600)}
 TECHNIQUE = 'runtime monitoring: history monitor with interposed os.urandom (recording proxy) + reference extraction of secrets from outputs; freshness/size/provenance invariants'
@@ -54,6 +54,9 @@ def cases(tier, seed):
             ops.append(op)
             if r.random() < 0.35:
                 ops.append(dict(op))      # exact repeat
+        # a caller-supplied session key used for several messages (sessionkey= is public API): everything ELSE that has to be fresh still is
+        ecdh = [x for x in encwork.RECIPIENTS if not x.startswith('rsa')]
+        ops.insert(r.randrange(len(ops)), {'op': 'enc_fixed_sk', 'rcs': [ecdh[h % len(ecdh)], ecdh[(h * 3 + 1) % len(ecdh)], 'rsa1024_1'], 'cipher': ciphers[h % len(ciphers)], 'n': 3, 'msg': h % 3})
         # every history ends with a protect / protect-again pair on one key with the same parameters (change-passphrase flow)
         tail = {'op': 'protect', 'key': 'ed25519_3', 'pw': h % 2, 'cipher': 'AES256', 'hash': 'SHA256'}
         cs.append({'history': h, 'ops': ops[:n_ops + 4] + [tail, dict(tail)]})
@@ -143,6 +146,32 @@ def run_case(ctx, d):
                 calg = getattr(SymmetricKeyAlgorithm, op['cipher'])
                 cid = encwork.CIPHERS[op['cipher']]
                 secrets = []
+                if op['op'] == 'enc_fixed_sk':
+                    fixed = bytes((7 * j + 1) & 0xFF for j in range(sym.keylen(cid)))
+                    for rc in op['rcs']:
+                        k, m = encwork.recipient(rc)
+                        pubobjs = [k.pubkey, pgpy.PGPKey.from_blob(bytes(k.pubkey))[0]]
+                        for n in range(op['n']):
+                            mm = msg if n != 1 else pgpy.PGPMessage.new(MSGS[(op['msg'] + 1) % 3], compression=CompressionAlgorithm.Uncompressed)
+                            rec.start()
+                            enc = pubobjs[n % 2].encrypt(mm, cipher=calg, sessionkey=fixed)
+                            window = list(rec.window)
+                            view = encwork.ref_open(bytes(enc), [('key', m)])
+                            res = view['results'][0]
+                            ctx.count('encryptions_with_a_caller_supplied_session_key')
+                            if res is None or isinstance(res, Exception) or bytes(res[1]) != fixed:
+                                ctx.fail('caller-supplied-session-key-not-used', {'op': op, 'rc': rc, 'err': repr(res)[:120]})
+                                continue
+                            pt, prefix = encwork.open_data(view['data'], res[0], fixed)
+                            check(ctx, seen, 'prefix', prefix, sym.blocksize(cid), window, op, i)
+                            for e in view['esk']:
+                                f = RPK.pkesk_fields(e.body)
+                                if e.tag == 1 and f['alg'] == 18:
+                                    check(ctx, seen, 'ephemeral', f['point'], None, None, dict(op, rc=rc, n=n), i)
+                                elif e.tag == 1:
+                                    # RSA: the padded block is random, so the encrypted session key never repeats either
+                                    check(ctx, seen, 'ephemeral', e.body[10:], None, None, dict(op, rc=rc, n=n), i)
+                    continue
                 if op['op'] == 'enc_key':
                     k, m = encwork.recipient(op['rc'])
                     # two out of three encryptions use one long-lived public key object per recipient (as an application holding a
